@@ -266,6 +266,13 @@ def check_trampoline(rep, db, f, inst):
             rep.violation(rule, site(f) + " [trampoline]", "trampoline<%s> records slot %s" % (N, [fmt(e.b) for e in rec]), f["loc"], inst)
             return
         td = rec[0].a[1]
+        r0 = td
+        while isinstance(r0, tuple) and r0 and r0[0] in ("fld", "idx"):
+            r0 = r0[1]
+        if isinstance(r0, tuple) and r0[:1] in (("var",), ("tmp",)):
+            rep.violation(rule, site(f) + " [trampoline]", "trampoline<%s> records its slot in %s, a local copy of the per-thread record: the record read by impl_get_executed_callback_sandbox_and_key keeps the "
+                          "previous slot and another callback's key is reported" % (N, fmt(td)), rec[0].loc, inst)
+            return
         if len(ic) != 1:
             rep.violation(rule, site(f) + " [trampoline]", "interceptor not called exactly once", f["loc"], inst)
             return
